@@ -66,6 +66,8 @@ def gen_actor(rng, max_iters=120, dims=(1, 2, 3, 4, 5), families=None, shipped_p
         spec["upper"] = upper
         if btype != "float_array":
             spec["bounds_type"] = btype
+    if rng.random() < 0.05:
+        params["epsR"] = rng.choice([0.0, 0.01, 0.5, 1.0, 3.0])
     # ways user code writes the same configuration (none of them changes what is configured)
     u = rng.random()
     if u < 0.03:
